@@ -120,7 +120,11 @@ def run(tier, seed, meta, chk):
         for pt, n in inits.items():
             C["init_" + pt] = C.get("init_" + pt, 0) + n  # recorded, not judged
         # every call completed, no panic (a poisoned lock shows as a panic on every later call)
+        hostile = max(e for (k, op, e) in table) - 1 if table else -1  # the envelope with the dcbor date panic (D14)
         for ev in events:
+            if not ev["ok"] and ev["e"] == hostile and ev["op"] != "register_tags":
+                C["expected_dependency_panics"] = C.get("expected_dependency_panics", 0) + 1
+                continue
             if not ev["ok"]:
                 add_violation(f"{label}/panic-in-op/{ev['op']}", f"operation {ev['op']} on envelope #{ev['e']} panicked in thread {ev['t']} (seed {tseed}, {threads} threads)", {"trial_seed": tseed, "threads": threads, "log": path})
         # k assignment: text == ref[k], (#reg returned before call) <= k <= (#reg called before return),
